@@ -18,7 +18,9 @@ import (
 	"fmt"
 	"math/rand"
 	"os"
+	"runtime"
 	"sort"
+	"strings"
 	"sync"
 	"sync/atomic"
 	"time"
@@ -134,6 +136,12 @@ type Lab struct {
 
 	mcMu   sync.Mutex
 	MCalls []MembershipCall
+
+	// freeze of the periodic tasks (see FreezePeriodic)
+	frozen    atomic.Bool
+	frzMu     sync.Mutex
+	parked    map[string]bool
+	frzRelase chan struct{}
 }
 
 var sqliteInit sync.Once
@@ -162,6 +170,7 @@ func New(opt Options) *Lab {
 
 // Close removes the hook; nodes must have been stopped by the caller.
 func (l *Lab) Close() {
+	l.Unfreeze()
 	rchord.VerifSetHook(nil)
 	if l.mnet != nil {
 		l.mnet.stop()
@@ -197,6 +206,15 @@ func (l *Lab) hook(point string, node uint64) {
 			l.evMu.Lock()
 			l.events = append(l.events, Event{Seq: l.evSeq.Add(1), T: mono() / 1000, Point: point, Node: node})
 			l.evMu.Unlock()
+		}
+	}
+	if l.frozen.Load() {
+		switch point {
+		case "stab.done", "fix.done", "cp.done":
+			if onStack("chord.(*LocalNode).periodic") {
+				l.park(point, node)
+				return
+			}
 		}
 	}
 	l.cbMu.RLock()
@@ -387,8 +405,82 @@ func (l *Lab) Live() []*Member {
 	return out
 }
 
+// FreezePeriodic parks every node's three periodic task loops (stabilize, fix-finger,
+// predecessor check) at the hook that ends their current round, and returns once all loops
+// of all live members are parked: from then on pointers change only through the protocol
+// steps the test itself drives (join/leave advisories run their own stabilize/fix-finger),
+// so the state observed at a hook is not repaired behind the probe's back, however slowly
+// the probe goroutines get scheduled. Loops started later (a joiner's) park after their
+// first round. Unfreeze releases them; StopAll and Close unfreeze first.
+func (l *Lab) FreezePeriodic(timeout time.Duration) bool {
+	l.frzMu.Lock()
+	if l.parked == nil {
+		l.parked = map[string]bool{}
+	}
+	if l.frzRelase == nil {
+		l.frzRelase = make(chan struct{})
+	}
+	l.frzMu.Unlock()
+	l.frozen.Store(true)
+	deadline := time.Now().Add(timeout)
+	for {
+		all := true
+		l.frzMu.Lock()
+		for _, m := range l.Live() {
+			// (the predecessor check has no round end when there is no predecessor to check;
+			// it parks when it has one, and it never touches successors or fingers)
+			for _, p := range []string{"stab.done", "fix.done"} {
+				if !l.parked[fmt.Sprintf("%s/%d", p, m.ID)] {
+					all = false
+				}
+			}
+		}
+		l.frzMu.Unlock()
+		if all {
+			return true
+		}
+		if time.Now().After(deadline) {
+			return false
+		}
+		time.Sleep(2 * time.Millisecond)
+	}
+}
+
+func (l *Lab) park(point string, node uint64) {
+	k := fmt.Sprintf("%s/%d", point, node)
+	l.frzMu.Lock()
+	ch := l.frzRelase
+	if ch == nil || !l.frozen.Load() {
+		l.frzMu.Unlock()
+		return
+	}
+	l.parked[k] = true
+	l.frzMu.Unlock()
+	<-ch
+	l.frzMu.Lock()
+	delete(l.parked, k)
+	l.frzMu.Unlock()
+}
+
+func (l *Lab) Unfreeze() {
+	l.frzMu.Lock()
+	l.frozen.Store(false)
+	if l.frzRelase != nil {
+		close(l.frzRelase)
+		l.frzRelase = nil
+	}
+	l.frzMu.Unlock()
+}
+
+func onStack(frag string) bool {
+	buf := make([]byte, 8<<10)
+	n := runtime.Stack(buf, false)
+	return strings.Contains(string(buf[:n]), frag)
+}
+
 // StopAll makes every running node leave (best effort) so goroutines end.
 func (l *Lab) StopAll() {
+	l.Unfreeze()
 	for _, m := range l.All() {
 		if !m.Stopped() {
 			m.Node.Leave()
